@@ -314,17 +314,19 @@ func cmdDrive(args []string) {
 	raceReported := 0
 	raceIgnored := 0
 	var raceUnconfirmed []int64
+	raceExamined := 0
 	for _, sd := range raceSeeds {
-		if raceReported >= 2 {
+		if raceReported >= 2 || raceExamined >= 6 {
 			break
 		}
+		raceExamined++
 		plan := generate(*prop, sd, *tier)
 		test := func(q *Plan) (bool, string) { return raceReplays(q, *raceBin, *work, b.raceFilter) }
 		okRace, report := test(plan)
 		for try := 0; !okRace && try < 2 && b.raceFilter == ""; try++ {
 			okRace, report = test(plan)
 		}
-		if !okRace {
+		if !okRace && b.raceFilter == "" {
 			// maybe the report depends on what earlier runs of that worker
 			// left behind in the process: retry with those runs as a prefix
 			for _, j := range jobs {
